@@ -42,8 +42,8 @@ LEVEL_TEXT = (
 LEVEL_NOTE = (
     'Trusted: Lean kernel (axioms propext, Classical.choice, Quot.sound); jsonpickle, json, gzip and '
     'str.lower (modelled as observed, tied by the correspondence only); the tables regenerated from the running '
-    'code (dataclass fields, persisted / read keys, allow-list, gzip extension tests, __getnewargs__, whether the '
-    'AST is persisted); the formula parser and evaluator are uninterpreted parameters of the Lean model. '
+    'code by introspection and probes (dataclass fields, persisted / read keys, allow-list, gzip-or-plain per file '
+    'name, __getnewargs__, whether the AST is persisted); the formula parser and evaluator are uninterpreted parameters of the Lean model. '
     'Partial: restore theorems carry the guard Persistable (encodable and not nested deeper than the encoder '
     'allows) because of finding D1201.')
 DESIGN_REF = '§4 C12'
@@ -53,8 +53,11 @@ TRUSTED = [
     'jsonpickle 4.x (object graph <-> JSON), json (float repr round trip), gzip, os.path.splitext and '
     'str.lower: modelled as observed in lean/XlVerif/Model/C12.lean, tied to the running code only by this '
     'correspondence run',
-    'the translator harness/extractors/c12_dataclass.py (dataclass field tables, persisted/read keys, '
-    'allow-list, extension tests, ExcelType.__getnewargs__)',
+    'the translator harness/extractors/c12_dataclass.py: the tables are observations of the running code '
+    '(dataclasses.fields; probes: magic bytes of files written under 23 extension spellings and 31 awkward names, '
+    'which payload the reader accepts under each name, top-level keys of a persisted probe model and where each '
+    'section lands in a fresh Model, classes rebuilt with the import fallback blocked, json:// key escaping, '
+    '__getnewargs__ of probe instances, whether the AST is persisted) — not readings of the source text',
     'the formula parser (build_code) and the evaluator enter the Lean model as uninterpreted functions of the '
     'observable state; their behaviour on restored models is checked by re-evaluating every cell',
     'the harness walker that abstracts a live model into the object graph sent to the Lean driver',
